@@ -143,18 +143,28 @@ func (s *Service) CopyWithOptions(options ServiceOptions, targetOptions TargetOp
 		return nil, err
 	}
 
-	service.active = s.active
-	service.rollout = s.rollout
+	service.active, service.rollout, service.rolloutController = s.loadBalancers()
 	service.pauseController = s.pauseController
-	service.rolloutController = s.rolloutController
 
 	return service, service.initialize()
 }
 
+// loadBalancers returns the service's current load balancers and rollout
+// controller. They are replaced (under serviceLock) by deployments and rollout
+// commands while requests and other commands are using the service.
+func (s *Service) loadBalancers() (*LoadBalancer, *LoadBalancer, *RolloutController) {
+	s.serviceLock.Lock()
+	defer s.serviceLock.Unlock()
+
+	return s.active, s.rollout, s.rolloutController
+}
+
 func (s *Service) Dispose() {
-	s.active.Dispose()
-	if s.rollout != nil {
-		s.rollout.Dispose()
+	active, rollout, _ := s.loadBalancers()
+
+	active.Dispose()
+	if rollout != nil {
+		rollout.Dispose()
 	}
 }
 
@@ -217,19 +227,21 @@ type marshalledService struct {
 }
 
 func (s *Service) MarshalJSON() ([]byte, error) {
+	active, rollout, rolloutController := s.loadBalancers()
+
 	var rolloutTargets []string
-	if s.rollout != nil {
-		rolloutTargets = s.rollout.Targets().Names()
+	if rollout != nil {
+		rolloutTargets = rollout.Targets().Names()
 	}
 
 	return json.Marshal(marshalledService{
 		Name:              s.name,
-		ActiveTargets:     s.active.Targets().Names(),
+		ActiveTargets:     active.Targets().Names(),
 		RolloutTargets:    rolloutTargets,
 		Options:           s.options,
 		TargetOptions:     s.targetOptions,
 		PauseController:   s.pauseController,
-		RolloutController: s.rolloutController,
+		RolloutController: rolloutController,
 	})
 }
 
@@ -338,23 +350,27 @@ func (s *Service) initialize() error {
 }
 
 func (s *Service) Drain(timeout time.Duration) {
+	active, rollout, _ := s.loadBalancers()
+
 	PerformConcurrently(
 		func() {
-			s.active.DrainAll(timeout)
+			active.DrainAll(timeout)
 		},
 		func() {
-			if s.rollout != nil {
-				s.rollout.DrainAll(timeout)
+			if rollout != nil {
+				rollout.DrainAll(timeout)
 			}
 		},
 	)
 }
 
 func (s *Service) loadBalancerForRequest(req *http.Request) *LoadBalancer {
-	lb := s.active
-	if s.rollout != nil && s.rolloutController != nil && s.rolloutController.RequestUsesRolloutGroup(req) {
+	active, rollout, rolloutController := s.loadBalancers()
+
+	lb := active
+	if rollout != nil && rolloutController != nil && rolloutController.RequestUsesRolloutGroup(req) {
 		slog.Debug("Using rollout for request", "service", s.name, "path", req.URL.Path)
-		lb = s.rollout
+		lb = rollout
 	}
 
 	return lb
